@@ -114,6 +114,7 @@ class Session:
         self._path_added = False
         self.states = []
         self.nested_log = []
+        self.prepare_store()
 
     # ---------------------------------------------------------------- housekeeping
     def close(self):
@@ -154,6 +155,20 @@ class Session:
         self._texts[ti] = txt
         return txt
 
+    def prepare_store(self):
+        """Durable state exists before the first operation, identically in every process
+        lifetime of this run: the pulse-module files, and the scratch directory on
+        sys.path iff some text imports a module absolutely."""
+        for e in self.plan["texts"]:
+            if e.get("pulses"):
+                self.ensure_module(e["pulses"])
+        if any(e.get("pulses") and not e["pulses"]["relative"] for e in self.plan["texts"]):
+            sys.path.insert(0, self.scratch)
+            self._path_added = True
+        import importlib
+
+        importlib.invalidate_caches()
+
     def ensure_module(self, pm):
         name = pm["mod"]
         if name in self._modules:
@@ -183,12 +198,6 @@ class Session:
         else:
             with open(os.path.join(self.scratch, name + ".py"), "w") as f:
                 f.write(src)
-        if not pm["relative"] and not self._path_added:
-            sys.path.insert(0, self.scratch)
-            self._path_added = True
-            import importlib
-
-            importlib.invalidate_caches()
 
     def parse_kwargs(self, ti, kw):
         e = self.plan["texts"][ti]
